@@ -274,6 +274,7 @@ def u_hist_from_catalog(ctx):
     class Par:
         COMM = mod("yaw.utils.parallel").COMM
         on_root = staticmethod(lambda: True)
+        on_worker = staticmethod(lambda: False)
         iter_unordered = staticmethod(iter_unordered_stub)
 
     def HistInit(self, b, data, samples):
@@ -285,8 +286,12 @@ def u_hist_from_catalog(ctx):
         t = bv("t")
         c = bv("c")
         # every row whose result has already arrived holds the histogram of *its* patch
-        return SBool(z3.ForAll([t, c], z3.Implies(z3.And(t >= 0, t < to_term(L.j), c >= 0, c < nb.t),
-                                                   L.counts._elem(perm.pi(t), c) == hist(perm.pi(t), c))))
+        oc = L.old.counts._elem
+        return dict(arrived=SBool(z3.ForAll([t, c], z3.Implies(z3.And(t >= 0, t < to_term(L.j), c >= 0, c < nb.t),
+                                                                L.counts._elem(perm.pi(t), c) == hist(perm.pi(t), c)))),
+                    # frame: the rows of the patches whose result has not arrived yet hold what they held before the loop
+                    untouched=SBool(z3.ForAll([t, c], z3.Implies(z3.And(t >= to_term(L.j), t < N.t, c >= 0, c < nb.t),
+                                                                  L.counts._elem(perm.pi(t), c) == oc(perm.pi(t), c)))))
     name = "C03/HistData.from_catalog"
     cat = CatalogProxy(ctx, N)
     with Patches() as pt, use_loops({site: LoopSpec(inv=inv)} if site in shadow.SITES else {}):
